@@ -50,6 +50,8 @@ def corpus():
         "gaussvol %s %d %d" % (hx("7/s"), 50400 * _plan.S, 9000 * _plan.S),
         "gaussvol %s %d %d" % (hx("7"), 50400 * _plan.S, 9000 * _plan.S),
         "gaussvol %s %d %d" % (hx("1/ns"), 3600 * _plan.S, 60 * _plan.S),
+        "bramp 1 120 1000000000 %d %d %s 60000000000" % (60 * _plan.S, 60 * _plan.S, "0,%d,%d" % (30 * _plan.S, 60 * _plan.S)),    # 1/s -> 120/m: different units
+        "bramp 10 200 100000000 %d %d %s 1000000000" % (10 * _plan.S, 10 * _plan.S, "0,%d,%d" % (5 * _plan.S, 10 * _plan.S)),       # 10/100ms -> 200/s
     ] + _plan.cli_corpus()
 
 
@@ -67,6 +69,11 @@ def generate(rng, tier):
         out.append(_plan.calc_case(rng))
     while len(out) < n:
         out.append(_plan.plan_case(rng, valid_bias=0.55))
+    # ramps whose two rates are spelt in different units (refused today; if accepted they must mean what they spell)
+    for _ in range({"quick": 20, "thorough": 300, "search": 80}[tier]):
+        su, eu = rng.sample([_plan.S // 10, _plan.S, 60 * _plan.S, _plan.S // 2], 2)
+        dur = max(su, eu) * rng.choice([1, 2, 10])
+        out.append("bramp %d %d %d %d %d %s %d" % (rng.randint(0, 20), rng.randint(21, 400), su, dur, dur, "0,%d,%d" % (dur // 2, dur), eu))
     # --peak-rate of the gaussian trigger: a rate string too, with units down to nanoseconds
     for _ in range({"quick": 60, "thorough": 1500, "search": 400}[tier]):
         r = _plan.rate_string(rng) if rng.random() < 0.4 else "%d/%s" % (rng.choice([0, 1, 3, 5, 1000]), rng.choice(
@@ -96,7 +103,7 @@ def nontrivial_key(rec):
         return c
     if c.startswith("parserate") and "2f" in c.split()[1]:
         return c
-    if c.startswith(("calc.", "plan", "parsestages", "gaussvol")):
+    if c.startswith(("calc.", "plan", "parsestages", "gaussvol", "bramp")):
         return c
     return None
 
